@@ -26,6 +26,28 @@ Definition spec_ds (tail : list Z) (tailkeep : list (list bool)) (dt : Z) (parts
   a <- oindex_keep (whole tail parts) (AMask (List.concat (map dp_tk parts)) :: map AMask tailkeep) ;;
   r <- oindex a ix ;; Ok (mk_arr dt r).
 
+(* ---------- parts of ANOTHER SIZE (a spectral window with another number of channels, a subarray with another
+   number of correlation products).  ConcatenatedDataSet._set_keep hands EVERY part the channel / product masks of the
+   selected window / subarray ([tail], [tailkeep]); select() has deselected every dump of the parts of other windows /
+   subarrays.  [sp_tail] = the part's own (channels, products).
+     * h5 parts (LazyIndexer; [strict] = false): a mask of another size is not looked at until rows are read; the part
+       reports shape[0] = 0 and ConcatenatedLazyIndexer leaves it out (`if indexer.shape[0]`) - reading rows of such a
+       part fails;
+     * v4 parts (DaskLazyIndexer; [strict] = true): `indexer.shape` applies the masks to the dask array at once:
+       IndexError("Boolean array with size .. is not long enough for axis ..") - finding C19-F5. *)
+Record spart := mk_spart { sp_tail : list Z; sp_part : dpart }.
+Definition zs_eqb (a b : list Z) : bool := (Nat.eqb (List.length a) (List.length b)) && forallb (fun p => fst p =? snd p) (combine a b).
+Definition fits (tail : list Z) (p : spart) : bool := zs_eqb (sp_tail p) tail.
+Definition has_dump (p : spart) : bool := existsb (fun b => b) (dp_tk (sp_part p)).
+Definition ds_getitem_sized (strict : bool) (tail : list Z) (tailkeep : list (list bool)) (dt : Z) (parts : list spart)
+                            (ix : list aidx) : res arr :=
+  if strict && negb (forallb (fits tail) parts) then Err
+  else if existsb (fun p => negb (fits tail p) && has_dump p) parts then Err
+  else ds_getitem tail tailkeep dt (map sp_part (filter (fits tail) parts)) ix.
+(* the property: the parts of the selected window / subarray glued (the others have no selected dump) *)
+Definition spec_ds_sized (tail : list Z) (tailkeep : list (list bool)) (dt : Z) (parts : list spart) (ix : list aidx) : res arr :=
+  spec_ds tail tailkeep dt (map sp_part (filter (fits tail) parts)) ix.
+
 Definition to_dpart (tail : list Z) (x : sx) : dpart :=
   match x with
   | L [I t; tk; I base] => mk_dpart t (to_bools tk) (arange (t :: tail) base)
@@ -39,5 +61,20 @@ Definition wire_192 (x : sx) : sx :=
       let tail := to_Zs tail in let tk := map to_bools (to_list tailkeep) in
       let ps := map (to_dpart tail) (to_list parts) in let ix := map to_aidx (to_list ix) in
       L [of_arr (ds_getitem tail tk dt ps ix); of_arr (spec_ds tail tk dt ps ix)]
+  | _ => sx_err
+  end.
+
+(* (strict tail tailkeep dt parts ix) -> (model spec) ; part = (own-tail T time-mask label-base) *)
+Definition to_spart (x : sx) : spart :=
+  match x with
+  | L [own; I t; tk; I base] => mk_spart (to_Zs own) (mk_dpart t (to_bools tk) (arange (t :: to_Zs own) base))
+  | _ => mk_spart [] (mk_dpart 0 [] (Node []))
+  end.
+Definition wire_196 (x : sx) : sx :=
+  match x with
+  | L [strict; tail; tailkeep; I dt; parts; ix] =>
+      let tail := to_Zs tail in let tk := map to_bools (to_list tailkeep) in
+      let ps := map to_spart (to_list parts) in let ix := map to_aidx (to_list ix) in
+      L [of_arr (ds_getitem_sized (to_bool strict) tail tk dt ps ix); of_arr (spec_ds_sized tail tk dt ps ix)]
   | _ => sx_err
   end.
